@@ -52,6 +52,25 @@ theorem C01_gen_mask_test_init : ∃ t, Generated.C01.maskTableInit = some t ∧
       ∧ row.2.2.2.2 = row.2.2.2.1 :=
   ⟨_, rfl, rfl, by decide⟩
 
+/-- what `C01_gen_mask_ready` demands of one row -/
+def readyRowOk (row : Nat × Nat × Nat × Bool) : Bool :=
+  let f : Feature := ⟨0, ⟨2, 1⟩, BitVec.ofNat 8 row.2.1, BitVec.ofNat 8 row.2.2.1, true⟩
+  (eligible (BitVec.ofNat 8 row.1) f && eligible (BitVec.ofNat 8 row.1 ||| bReady) f) == row.2.2.2
+
+/-- **the Ready bit in the mask test** (review A, C01-5): the real code, on all 8 × 16 × 16 = 2048
+combinations of a start state over Secure, Authn, S2S and masks over Secure, Authn, **Ready**, S2S,
+through a two-feature initiator (a voluntary feature supplies `Ready`, then the mandatory feature
+with the masks under test is looked at in state `st ||| Ready`): it is negotiated iff the model's
+`eligible` held when the list was read (`st`) **and** holds when it is selected (`st ||| Ready`) — a
+feature prohibited by `Ready` (resource binding) is not run once the session is ready, one that
+needs `Ready` is never run during negotiation; a mask test that special-cases the ready bit breaks
+this theorem -/
+theorem C01_gen_mask_ready : ∃ t, Generated.C01.maskTableReady = some t ∧ t.length = 2048 ∧
+    ∀ row ∈ t, readyRowOk row = true := by
+  refine ⟨_, rfl, by decide +kernel, ?_⟩
+  have h : (Generated.C01.maskTableReady.getD []).all readyRowOk = true := by decide +kernel
+  exact fun row hr => List.all_eq_true.mp h row hr
+
 /-- … and `eligible` only looks at the bits the two masks name, so the table extends to every
 state: bits outside `necessary ||| prohibited` never matter -/
 theorem C01_eligible_local (st : St) (f : Feature) :
